@@ -1,4 +1,35 @@
-/* White-box unit for crypto/crypto_aes.c (C03): exposes the dispatch variable of crypto_aes_*. */
+/* White-box unit for crypto/crypto_aes.c (C03): exposes the dispatch variable of crypto_aes_*.
+ * With -DHC_BLACKBOX (notes/blackbox.md) crypto_aes.c is a separate unit: the path is the answer of the public
+ * crypto_aes_can_use_intrinsics() (cpuid + self-test of this build); nothing can be reset or pinned. */
+#ifdef HC_BLACKBOX
+#include "crypto_aes.h"
+#include "h_cpu.h"
+
+const char *
+hcpu_aes_path(void)
+{
+
+	switch (crypto_aes_can_use_intrinsics()) {
+	case 0:
+		return ("software");
+	case 1:
+		return ("aesni");
+	case 2:
+		return ("arm");
+	}
+	return ("?");
+}
+
+void
+hcpu_aes_reset(void)
+{
+}
+
+void
+hcpu_aes_force(void)
+{
+}
+#else
 #include "crypto_aes.c"
 #include "h_cpu.h"
 
@@ -44,3 +75,4 @@ hcpu_aes_force(void)
 #endif
 #endif
 }
+#endif /* !HC_BLACKBOX */
